@@ -325,6 +325,55 @@ def run(cx):
         ob.floor(n_loc, 6, "locals owning a sensitive value inspected")
         ob.floor(len(seen_allowed), 4, "known task-owned holders re-identified")
 
+    with cx.ob("C08.7", "R-CALLERS", "closed world of task creation: every task of the library is the manager task or lives on one of the three JoinSets shutdown terminates (C08.1, C12.4); nothing is spawned detached") as ob:
+        RH_ = "anemo::network::request_handler"
+        TABLE = {
+            "tokio::task::spawn::spawn": {"anemo::network::Builder::start": "the connection-manager task (ends when shutdown() returns)"},
+            "tokio::task::join_set::JoinSet::spawn": {
+                f"{MGR}::add_peer": "connection handler on self.connection_handlers (drained by shutdown)",
+                f"{MGR}::handle_incoming": "inbound handshake on self.pending_connections (shut down by shutdown)",
+                f"{MGR}::dial_peer": "outbound dial on self.pending_connections",
+                f"{RH_}::InboundRequestHandler::start": "request task on the handler's local JoinSet (shut down at handler exit, C12.4)"},
+            "tokio::task::blocking::spawn_blocking": {"anemo::types::address::Address::resolve": "DNS resolution, awaited in place; holds only the address"},
+        }
+
+        def is_spawn(callee):
+            segs = callee.split("::")
+            last = segs[-1]
+            return (segs[0] in ("tokio", "std", "futures", "futures_util", "async_std") and (last.startswith("spawn") or last in ("block_in_place",))
+                    and not callee.startswith("std::process"))
+        n = 0
+        seen = set()
+        for p_, b in prog.bodies.items():
+            if b.crate != "anemo":
+                continue
+            for c in b.calls():
+                if b.is_cleanup(c.bb) or not is_spawn(c.callee):
+                    continue
+                n += 1
+                owns = owner_paths(prog, b)
+                row = TABLE.get(c.callee, {})
+                okc = bool(owns) and all(o_ in row for o_ in owns)
+                ob.require(okc, f"spawn-site/{c.callee.split('::')[-1]}/{owner_path(prog, b)}",
+                           f"{c.callee} in {b.path}: not one of the task-creation sites whose tasks shutdown() terminates ({sorted(k for r in TABLE.values() for k in r)}); "
+                           "a task spawned elsewhere can outlive shutdown with whatever it owns (service clone, peer map, socket)", b.path, b.loc(c.bb))
+                if okc:
+                    seen.update((c.callee, o_) for o_ in owns)
+                    o = Origins(b)
+                    if c.callee.endswith("JoinSet::spawn") and owns[0].startswith(MGR):
+                        t = o.of_operand(c.args[0])
+                        ob.require(mentions_field(t, "connection_handlers") or mentions_field(t, "pending_connections"), f"spawn-site/set/{owner_path(prog, b)}",
+                                   f"task spawned on {show(t)[:80]}, not on one of the manager's two JoinSets", b.path, b.loc(c.bb))
+                    if c.callee == "tokio::task::spawn::spawn":
+                        t = o.of_operand(c.args[0])
+                        ob.require(term_has_call(t, f"{MGR}::start"), "spawn-site/manager-task", f"the detached task is {show(t)[:80]}, not ConnectionManager::start", b.path, b.loc(c.bb))
+        for callee, _ in ((k, None) for k in TABLE):
+            for b, bb in prog.fn_refs(callee, crates=["anemo"]):
+                ob.fail("refuted", f"spawn-site/fnref/{owner_path(prog, b)}", f"{callee} used as a function value in {b.path}", b.path, b.loc(bb))
+        ob.floor(n, 6, "task-creation call sites in crate anemo")
+        ob.floor(len(seen), 6, "known task-creation sites re-identified")
+        ob.set_sample({"sites": sorted(f"{k.split('::')[-1]} in {o_}" for k, o_ in seen)})
+
     with cx.ob("C08.5", "R-PANIC", "panic inventory of manager / teardown / API code: every site justified; shutdown()'s empty-map assert is not dischargeable") as ob:
         lb = loop_body(cx)
         sh = cx.coroutine(f"{MGR}::shutdown")
@@ -374,6 +423,12 @@ def run(cx):
                 if any(name_matches(c.fn, "vec::Vec::is_empty") for c in k.calls()) and \
                         any(name_matches(c.fn, "HashMap::contains_key") and mentions_field(ko_.of_operand(c.args[0]), "connections") for c in k.calls()):
                     return True
+            # ... or the written-out loop form of the same filter, in the function itself
+            bo_ = Origins(b)
+            if any(name_matches(c.fn, "vec::Vec::is_empty") and mentions_field(bo_.of_operand(c.args[0]), "address") and term_has_call(bo_.of_operand(c.args[0]), "HashMap::values")
+                   for c in b.calls() if not b.is_cleanup(c.bb)) and \
+                    any(name_matches(c.fn, "HashMap::contains_key") and mentions_field(bo_.of_operand(c.args[0]), "connections") for c in b.calls() if not b.is_cleanup(c.bb)):
+                return True
             return False
         PIN = "anemo::config::EndpointConfig::client_config_with_expected_server_identity"
         allow = {
